@@ -443,6 +443,12 @@ mod worker {
 
                     let stream_h3 = match upgrade {
                         Ok(stream_h3) => stream_h3,
+                        Err(ProtoReadError::H3(ErrorCode::StreamCreation)) => {
+                            // Unknown stream type: only this stream is discarded, it MUST NOT
+                            // be considered a connection error of any kind.
+                            debug!("Unknown stream type, stream discarded");
+                            return;
+                        }
                         Err(ProtoReadError::H3(error_code)) => {
                             let _ = h3_queue.send(Err(DriverError::Proto(error_code))).await;
                             return;
